@@ -9,7 +9,13 @@
    Part B (one step, intertest_setup.<tool>): a state step (check, get, set, unset, push, pop)
    is one test per selected vm per compatible worker; a vm-management step (boot, shutdown, ...)
    is one test per compatible worker acting on all selected vms.  Either way every selected vm
-   is acted on exactly once on every compatible worker and no other vm ever. *)
+   is acted on exactly once on every compatible worker and no other vm ever.
+
+   Part C (a chain of real tools, one run configuration shared by all steps): a tool applies its own
+   parameters on top of the user's for the duration of the step only - the create / clean / collect
+   templates overwrite pool_scope, check_mode_images and a state/mode pair - so every step runs with
+   the user's parameters plus its own, whatever ran before it; a step whose test fails makes its tool
+   report failure (a value other than 0 / None), which part A turns into the chain's return code. *)
 EXTENDS Naturals, Sequences, FiniteSets, TLC
 
 CONSTANTS Steps,        \* step names usable in a chain
@@ -17,28 +23,42 @@ CONSTANTS Steps,        \* step names usable in a chain
           MaxChain,
           StateSteps, VmSteps,   \* tools of the two templates
           VMs, Nets,
-          Compatible    \* [Nets -> SUBSET VMs]: vms a worker's restrictions admit
+          Compatible,   \* [Nets -> SUBSET VMs]: vms a worker's restrictions admit
+          RealTools,    \* tools usable in a real chain (part C)
+          Overriding,   \* [RealTools -> SUBSET UserKeys]: user-settable keys a tool's template overwrites during its step
+          UserKeys,     \* keys the user may pass on the command line (abstract values: "user" / "default")
+          MaxReal
 
 VARIABLES chain,    \* sequence of [step, outcome]
           pos, log, rc,
-          tool, sel, nets, execs, phase
-vars == <<chain, pos, log, rc, tool, sel, nets, execs, phase>>
+          tool, sel, nets, execs, phase,
+          pd,       \* part C: the run parameters between steps: [UserKeys -> {"user", "default"} \cup RealTools]
+          seen      \* part C: per executed step, the parameters its test ran with and what its tool reported
+vars == <<chain, pos, log, rc, tool, sel, nets, execs, phase, pd, seen>>
 
 RECURSIVE Chains(_)
 Chains(n) == IF n = 0 THEN {<<>>} ELSE Chains(n - 1) \cup {Append(c, [step |-> s, outcome |-> o]) : c \in {x \in Chains(n - 1) : Len(x) = n - 1}, s \in Steps, o \in Outcomes}
 
+RECURSIVE RealChains(_)
+RealChains(n) == IF n = 0 THEN {<<>>} ELSE RealChains(n - 1) \cup {Append(c, [step |-> s, outcome |-> o]) : c \in {x \in RealChains(n - 1) : Len(x) = n - 1},
+                                                                                 s \in RealTools, o \in {"ok", "fail"}}
+UserPd == [UserKeys -> {"user", "default"}]
+
 Init == /\ \/ /\ phase = "chain" /\ chain \in Chains(MaxChain) \ {<<>>}
-              /\ tool = "-" /\ sel = {} /\ nets = {}
+              /\ tool = "-" /\ sel = {} /\ nets = {} /\ pd = [k \in UserKeys |-> "default"]
+           \/ /\ phase = "real" /\ chain \in RealChains(MaxReal) \ {<<>>}
+              /\ tool = "-" /\ sel = {} /\ nets = {} /\ pd \in UserPd
            \/ /\ phase = "tool" /\ chain = <<>>
               /\ tool \in StateSteps \cup VmSteps /\ sel \in SUBSET VMs \ {{}} /\ nets \in SUBSET Nets \ {{}}
-        /\ pos = 1 /\ log = <<>> /\ rc = 0 /\ execs = {}
+              /\ pd = [k \in UserKeys |-> "default"]
+        /\ pos = 1 /\ log = <<>> /\ rc = 0 /\ execs = {} /\ seen = <<>>
 
 \* ---- part A
 RunStep == /\ phase = "chain" /\ pos <= Len(chain)
            /\ log' = Append(log, chain[pos].step)
            /\ rc' = IF chain[pos].outcome \in {"one", "raise"} THEN 1 ELSE rc
            /\ pos' = pos + 1
-           /\ UNCHANGED <<chain, tool, sel, nets, execs, phase>>
+           /\ UNCHANGED <<chain, tool, sel, nets, execs, phase, pd, seen>>
 \* ---- part B: the set of executions <<worker, vms acted on>> of one tool call
 \* a state step is composed per vm: a worker whose restrictions exclude one vm still serves the others;
 \* a vm-management step is one test for all selected vms: a worker must admit all of them
@@ -49,14 +69,29 @@ RunTool == /\ phase = "tool" /\ pos = 1
                             {e \in {<<n, {v}>> : n \in nets, v \in sel} : \A v \in e[2] : v \in Compatible[e[1]]}
                        ELSE {<<n, sel>> : n \in {m \in nets : sel \subseteq Compatible[m]}}
            /\ pos' = 2
-           /\ UNCHANGED <<chain, log, rc, tool, sel, nets, phase>>
-Next == RunStep \/ RunTool
+           /\ UNCHANGED <<chain, log, rc, tool, sel, nets, phase, pd, seen>>
+\* ---- part C: one step of a real chain; the tool's template is applied for the step and taken back afterwards
+During(t) == [k \in UserKeys |-> IF k \in Overriding[t] THEN t ELSE pd[k]]
+RunReal == /\ phase = "real" /\ pos <= Len(chain)
+           /\ LET t == chain[pos].step IN
+                /\ seen' = Append(seen, [params |-> During(t), reports |-> IF chain[pos].outcome = "fail" THEN "failure" ELSE "success"])
+                /\ rc' = IF chain[pos].outcome = "fail" THEN 1 ELSE rc
+                /\ log' = Append(log, t)
+           /\ pd' = pd
+           /\ pos' = pos + 1
+           /\ UNCHANGED <<chain, tool, sel, nets, execs, phase>>
+Next == RunStep \/ RunTool \/ RunReal
 Spec == Init /\ [][Next]_vars
 
 \* ---- properties
 ChainDone == phase = "chain" /\ pos = Len(chain) + 1
 AllAttemptedInOrder == ChainDone => log = [k \in 1..Len(chain) |-> chain[k].step]
 FailureReported == ChainDone => (rc = 1 <=> \E k \in 1..Len(chain) : chain[k].outcome \in {"one", "raise"})
+\* part C: every step sees the user's parameters plus its own template, nothing of an earlier step
+RealDone == phase = "real" /\ pos = Len(chain) + 1
+StepParamsOwn == phase = "real" => \A k \in 1..Len(seen) : \A key \in UserKeys :
+                    seen[k].params[key] = (IF key \in Overriding[chain[k].step] THEN chain[k].step ELSE pd[key])
+RealFailureReported == RealDone => (rc = 1 <=> \E k \in 1..Len(chain) : chain[k].outcome = "fail")
 ToolDone == phase = "tool" /\ pos = 2
 \* every selected vm exactly once on every compatible worker, no other vm ever
 OncePerVmAndWorker == ToolDone => \A n \in nets : \A v \in VMs :
